@@ -130,8 +130,8 @@ func Observe(sc *Scenario, res *simpool.Result) Observation {
 			if ph == "ret" {
 				cb := &sc.Cbs[ci]
 				switch cb.Kind {
-				case "echo":
-					cbGo[ci] = "echo"
+				case "echo", "echoobj":
+					cbGo[ci] = cb.Kind
 				case "spawn":
 					cbGo[ci] = ""
 				case "chanop":
@@ -202,6 +202,7 @@ func Observe(sc *Scenario, res *simpool.Result) Observation {
 		}
 	}
 	// callbacks as JavaScript saw them
+	sharedCalls := 0
 	for _, c := range res.Cbs {
 		if c.Cb >= len(cbs) {
 			bad("callback result index out of range")
@@ -213,6 +214,21 @@ func Observe(sc *Scenario, res *simpool.Result) Observation {
 			continue
 		}
 		switch cb.Kind {
+		case "echoobj":
+			// j-th call with the shared object: n == j and the keys are n, k1..kj (j+1 of them), for the map
+			// parameter and for the interface parameter alike; nothing written by an earlier callee survives
+			sharedCalls++
+			var r struct {
+				A *int `json:"a"`
+				B *int `json:"b"`
+			}
+			json.Unmarshal(c.Ret, &r)
+			want := (sharedCalls+1)*1000 + sharedCalls
+			if r.A == nil || r.B == nil || *r.A != want || *r.B != want {
+				cbs[c.Cb] = fmt.Sprintf("ret:WRONG-ARGUMENTS call %d of the shared object saw %s, want a=b=%d", sharedCalls, string(c.Ret), want)
+			} else {
+				cbs[c.Cb] = "ret:echoobj"
+			}
 		case "echo":
 			var r rawRes
 			json.Unmarshal(c.Ret, &r)
